@@ -400,6 +400,148 @@ def rewrite_R3(toks, log):
     return out
 
 
+def _stmt_end(toks, k):
+    """index of the `;` that ends the statement starting at k (depth 0)"""
+    depth = 0
+    j = k
+    while j < len(toks):
+        tx = toks[j].text if toks[j].kind == "punct" else ""
+        if tx in ("(", "[", "{"):
+            depth += 1
+        elif tx in (")", "]", "}"):
+            depth -= 1
+            if depth < 0:
+                return None
+        elif tx == ";" and depth == 0:
+            return j
+        j += 1
+    return None
+
+
+def rewrite_R8(toks, log):
+    """A[I] -= E;  ->  A.set(I, A[I] - (E));      (compound assignment through an index; likewise += *= /=)"""
+    out = []
+    k = 0
+    while k < len(toks):
+        t = toks[k]
+        if t.kind == "ident":
+            s = [k + x for x in _sigidx(toks[k:k + 3])]
+            prev = None
+            for q in range(len(out) - 1, -1, -1):
+                if out[q].kind not in ("ws", "comment"):
+                    prev = out[q]
+                    break
+            at_stmt_start = prev is None or (prev.kind == "punct" and prev.text in (";", "{", "}"))
+            if at_stmt_start and len(s) >= 2 and toks[s[1]].kind == "punct" and toks[s[1]].text == "[":
+                c = match_close(toks, s[1])
+                s2 = [c + 1 + x for x in _sigidx(toks[c + 1:c + 4])]
+                if s2 and toks[s2[0]].kind == "punct" and toks[s2[0]].text == "=":
+                    e = _stmt_end(toks, s2[0] + 1)
+                    if e is None:
+                        raise Undecided("R8: assignment without `;` at line %d" % t.line)
+                    idx = text_of(toks[s[1] + 1:c]).strip()
+                    rhs = text_of(toks[s2[0] + 1:e]).strip()
+                    from rustlex import lex as _lex
+                    txt = "%s.set(%s, %s);" % (t.text, idx, rhs)
+                    out.extend(Tok(x.kind, x.text, t.line) for x in _lex(txt))
+                    nl = text_of(toks[k:e + 1]).count("\n")
+                    if nl:
+                        out.append(Tok("ws", "\n" * nl, t.line))
+                    log.append("R8 line %d (%s[..] = ..)" % (t.line, t.text))
+                    k = e + 1
+                    continue
+                if s2 and toks[s2[0]].kind == "punct" and toks[s2[0]].text in ("-=", "+=", "*=", "/="):
+                    e = _stmt_end(toks, s2[0] + 1)
+                    if e is None:
+                        raise Undecided("R8: compound assignment without `;` at line %d" % t.line)
+                    idx = text_of(toks[s[1] + 1:c]).strip()
+                    rhs = text_of(toks[s2[0] + 1:e]).strip()
+                    op = toks[s2[0]].text[0]
+                    from rustlex import lex as _lex
+                    txt = "%s.set(%s, %s[%s] %s (%s));" % (t.text, idx, t.text, idx, op, rhs)
+                    out.extend(Tok(x.kind, x.text, t.line) for x in _lex(txt))
+                    nl = text_of(toks[k:e + 1]).count("\n")
+                    if nl:
+                        out.append(Tok("ws", "\n" * nl, t.line))
+                    log.append("R8 line %d (%s[..] %s= ..)" % (t.line, t.text, op))
+                    k = e + 1
+                    continue
+        out.append(t)
+        k += 1
+    return out
+
+
+def rewrite_R9(toks, log):
+    """for I in (A..B).rev() { BODY }  ->  let mut I_rev: usize = B; while I_rev > A { I_rev = I_rev - 1; let I = I_rev; BODY }"""
+    out = []
+    k = 0
+    while k < len(toks):
+        t = toks[k]
+        if t.kind == "ident" and t.text == "for":
+            # find the `{` that opens the loop body
+            depth, j = 0, k + 1
+            while j < len(toks):
+                tx = toks[j].text if toks[j].kind == "punct" else ""
+                if tx in ("(", "["):
+                    depth += 1
+                elif tx in (")", "]"):
+                    depth -= 1
+                elif tx == "{" and depth == 0:
+                    break
+                j += 1
+            head = [x for x in toks[k + 1:j] if x.kind not in ("ws", "comment")]
+            txt = [x.text for x in head]
+            if len(txt) >= 8 and txt[-4:] == [".", "rev", "(", ")"]:
+                # I in ( A .. B ) . rev ( )
+                if not (head[0].kind == "ident" and txt[1] == "in" and txt[2] == "(" and txt[-5] == ")" and ".." in txt[3:-5]):
+                    raise Undecided("R9: unsupported reversed loop head at line %d" % t.line)
+                inner = txt[3:-5]
+                if inner.count("..") != 1 or "..=" in inner:
+                    raise Undecided("R9: unsupported reversed range at line %d" % t.line)
+                d = inner.index("..")
+                a, b = " ".join(inner[:d]), " ".join(inner[d + 1:])
+                i = txt[0]
+                from rustlex import lex as _lex
+                pre = "let mut %s_rev: usize = %s; while %s_rev > %s { %s_rev = %s_rev - 1; let %s = %s_rev;" % (i, b, i, a, i, i, i, i)
+                out.extend(Tok(x.kind, x.text, t.line) for x in _lex(pre))
+                nl = text_of(toks[k:j + 1]).count("\n")
+                if nl:
+                    out.append(Tok("ws", "\n" * nl, t.line))
+                log.append("R9 line %d (reversed range loop over %s)" % (t.line, i))
+                k = j + 1
+                continue
+        out.append(t)
+        k += 1
+    return out
+
+
+def rewrite_R10(toks, log, u, unit_name):
+    """match arms named in `--- opaque-arm: <pattern tokens>` sections: the arm body is replaced by `{ opaque_arm() }`
+    (a stub with `ensures false`): nothing is claimed about executions that enter that arm"""
+    for sct in u["sections"]:
+        if not sct["label"].startswith("opaque-arm"):
+            continue
+        anchor = sct["label"].split(":", 1)[1].strip()
+        want = [t.text for t in lex(anchor) if t.kind not in ("ws", "comment")] + ["=>"]
+        sigk = [k for k, t in enumerate(toks) if t.kind not in ("ws", "comment")]
+        hits = [a for a in range(len(sigk) - len(want) + 1) if all(toks[sigk[a + b]].text == want[b] for b in range(len(want)))]
+        if len(hits) != 1:
+            raise Undecided("anchor lost: opaque-arm %r matches %d places in %s" % (anchor, len(hits), unit_name))
+        a = hits[0]
+        ob = sigk[a + len(want)]
+        if toks[ob].text != "{":
+            raise Undecided("R10: arm %r of %s has no block body" % (anchor, unit_name))
+        cb = match_close(toks, ob)
+        from rustlex import lex as _lex
+        nl = text_of(toks[ob:cb + 1]).count("\n")
+        rep = [Tok(x.kind, x.text, toks[ob].line) for x in _lex("{ opaque_arm() }")]
+        if nl:
+            rep.append(Tok("ws", "\n" * nl, toks[ob].line))
+        log.append("R10 %s: arm `%s` (lines %d-%d) dropped: no claim about executions entering it" % (unit_name, anchor, toks[ob].line, toks[cb].line))
+        toks = toks[:ob] + rep + toks[cb + 1:]
+    return toks
+
+
 def rewrite_R4(toks, log, unit_name):
     """Zip::from(A0).and(A1)...for_each(|p0,..| BODY);  ->  zip_checkN + lane loop"""
     out = []
@@ -426,6 +568,38 @@ def rewrite_R4(toks, log, unit_name):
                         c = match_close(toks, s2[2])
                         body = toks[s2[2] + 1:c]
                         j = c + 1
+                        break
+                    if len(s2) >= 3 and toks[s2[0]].text == "." and toks[s2[1]].text == "map_assign_into" and toks[s2[2]].text == "(":
+                        # Zip::from(A..).map_assign_into(OUT, |p..| EXPR)  ==  Zip::from(OUT).and(A..).for_each(|o, p..| { *o = EXPR; })
+                        c = match_close(toks, s2[2])
+                        inner = toks[s2[2] + 1:c]
+                        depth, cut = 0, None
+                        for q, tk in enumerate(inner):
+                            tx = tk.text if tk.kind == "punct" else ""
+                            if tx in ("(", "[", "{"):
+                                depth += 1
+                            elif tx in (")", "]", "}"):
+                                depth -= 1
+                            elif tx == "," and depth == 0:
+                                cut = q
+                                break
+                        if cut is None:
+                            raise Undecided("R4: map_assign_into without a closure in %s at line %d" % (unit_name, t.line))
+                        target, clos = inner[:cut], inner[cut + 1:]
+                        sc = _sigidx(clos)
+                        if not sc or clos[sc[0]].text != "|":
+                            raise Undecided("R4: map_assign_into argument is not a closure (line %d)" % t.line)
+                        q = sc[0] + 1
+                        while clos[q].text != "|":
+                            q += 1
+                        expr = text_of(clos[q + 1:]).strip().rstrip(",").strip()
+                        ptxt = text_of(clos[sc[0] + 1:q]).strip()
+                        from rustlex import lex as _lex
+                        oname = "zip%d_out" % nzip
+                        body = [Tok(x.kind, x.text, t.line) for x in _lex("|%s, %s| { *%s = %s; }" % (oname, ptxt, oname, expr))]
+                        args.insert(0, target)
+                        j = c + 1
+                        log.append("R4 map_assign_into line %d" % t.line)
                         break
                     raise Undecided("R4: unsupported Zip chain in %s at line %d (only .and(..)*.for_each(..))" % (unit_name, t.line))
                 # optional trailing `;`
@@ -466,11 +640,14 @@ def _emit_zip(args, body, line, nzip, unit_name):
             names.append(p); readonly.append(False)
         if not re.match(r"^[A-Za-z_][A-Za-z0-9_]*$", names[-1]):
             raise Undecided("R4: unsupported closure pattern %r (line %d)" % (p, line))
+    for idx, a in enumerate(args):
+        if re.search(r"\.windows\(\d+\)$", norm(text_of(a))):
+            readonly[idx] = True      # the items of a windows producer are read-only views passed by value
     arrs = []
     pre = []
     for idx, a in enumerate(args):
         an = norm(text_of(a))
-        if re.match(r"^[A-Za-z_][A-Za-z0-9_]*$", an):
+        if re.match(r"^[A-Za-z_][A-Za-z0-9_]*$", an) and an not in names:
             arrs.append(an)
         else:
             tmp = "zip%d_a%d" % (nzip, idx)
@@ -507,7 +684,10 @@ def _emit_zip(args, body, line, nzip, unit_name):
     nn = "zip%d_n" % nzip
     txt = []
     txt.extend(pre)
-    txt.append("zip_check%d(%s);" % (n, ", ".join("&" + a for a in arrs)) if n > 1 else "")
+    # a producer `X.windows(N)` is not a lane bundle: the shape check is the variant named after its position
+    wpos = [str(idx) for idx, a in enumerate(args) if re.search(r"\.windows\(\d+\)$", norm(text_of(a)))]
+    suffix = ("_w" + "_".join(wpos)) if wpos else ""
+    txt.append("zip_check%d%s(%s);" % (n, suffix, ", ".join("&" + a for a in arrs)) if n > 1 else "")
     txt.append("let %s = %s.len(); let mut %s: usize = 0;" % (nn, arrs[0], i))
     txt.append("while %s < %s" % (i, nn))
     txt.append("/*@ZIPLOOP@*/{")
@@ -716,11 +896,20 @@ def emit_unit(em, repo, u, type_table, log, assumed=False):
             em.add("    }", kind="meta", unit=name)
     # ---- body (R3, R4) and splice (R6)
     body = list(toks[block[0]:block[1] + 1]) if block else list(toks[f["b_open"] + 1:f["b_close"]])
+    body = rewrite_R10(body, log, u, name)
     body = rewrite_R1b(body, log)
     body = rewrite_R3(body, log)
+    body = rewrite_R8(body, log)
+    body = rewrite_R9(body, log)
     body = rewrite_R4(body, log, name)
     body = splice(body, u, name)
     em.add_tokens_with_marks(body, name, h["file"]) if hasattr(em, "add_tokens_with_marks") else _emit_body(em, body, name, h["file"], u)
+    for s in u["sections"]:
+        if s["label"].startswith("proof at-end"):
+            em.add("    proof {", kind="meta", unit=name)
+            for off, ln in enumerate(s["lines"]):
+                em.add("        " + ln, kind="proof", unit=name, label="at-end", ufile=u["path"], uline=s["line0"] + off)
+            em.add("    }", kind="meta", unit=name)
     em.add("}", kind="meta", unit=name)
     # ---- vacuity canary: same parameters and preconditions, `ensures false` — must NOT verify
     has_canary = False
@@ -799,7 +988,7 @@ def splice(body, u, name):
             marks = [Mark("\n" + ln, "%s%d" % (lab[0], n), None, u["path"], s["line0"] + off) for off, ln in enumerate(s["lines"]) if ln.strip()]
             marks.append(Mark("\n", "ws", None, None, None))
             inserts.setdefault(j, []).extend(marks)
-        elif lab[0] == "proof" and lab[1].startswith("before"):
+        elif lab[0] in ("proof", "ghost") and len(lab) > 1 and lab[1].startswith("before"):
             pick_last = lab[1].startswith("before-last")
             anchor = s["label"].split(":", 1)[1].strip()
             want = [t.text for t in lex(anchor) if t.kind not in ("ws", "comment")]
@@ -812,9 +1001,10 @@ def splice(body, u, name):
                 hits = hits[-1:]
             if len(hits) != 1:
                 raise Undecided("anchor lost: proof anchor %r matches %d places in %s" % (anchor, len(hits), name))
-            marks = [Mark("proof {\n", "meta", None, None, None)]
+            marks = [Mark("proof {\n", "meta", None, None, None)] if lab[0] == "proof" else []
             marks += [Mark(ln + "\n", "proof", anchor, u["path"], s["line0"] + off) for off, ln in enumerate(s["lines"])]
-            marks.append(Mark("}\n", "meta", None, None, None))
+            if lab[0] == "proof":
+                marks.append(Mark("}\n", "meta", None, None, None))
             inserts.setdefault(hits[0], []).extend(marks)
     out = []
     for k, t in enumerate(body):
